@@ -32,6 +32,7 @@ type hoCase struct {
 	TermMs    int         `json:"term_ms"`              // terminate delay of the completing child
 	Lost      []lostChild `json:"lost,omitempty"`       // children that disappear (SIGKILL) before the completing one is started
 	AdminBusy bool        `json:"admin_busy,omitempty"` // a half-sent request is pending on the old admin API during the hand-over
+	Blocked   bool        `json:"blocked,omitempty"`    // a second service whose port a foreign listener holds: its listeners never get past the bind retries
 }
 
 const (
@@ -169,6 +170,14 @@ static_services:
           ip: %s
           port: %s
 `, ra.Port, rs.Port, host, port)
+	if c.Blocked {
+		bl, err := net.Listen("tcp4", "127.0.0.1:0")
+		if err != nil {
+			return false, nil
+		}
+		defer bl.Close()
+		yaml += blockedService(bl.Addr().(*net.TCPAddr).Port, host, port)
+	}
 	cfgFile := filepath.Join(dir, "bootstrap.yaml")
 	if err := os.WriteFile(cfgFile, []byte(yaml), 0o644); err != nil {
 		return false, nil
@@ -211,7 +220,7 @@ static_services:
 			defer bc.Close()
 		}
 	}
-	nt = c.AdminBusy
+	nt = c.AdminBusy || c.Blocked
 	parentEnv := fmt.Sprintf("%s=%d", parentPidEnv, parent.cmd.Process.Pid)
 	// children that disappear
 	for i, lc := range c.Lost {
@@ -311,7 +320,8 @@ func TestHandover(t *testing.T) {
 		t.Skip("no binary")
 	}
 	rapid.Check(t, func(rt *rapid.T) {
-		c := hoCase{Conns: rapid.IntRange(1, 3).Draw(rt, "conns"), TermMs: rapid.SampledFrom([]int{300, 600, 1200}).Draw(rt, "term"), AdminBusy: rapid.IntRange(0, 3).Draw(rt, "busy") == 0}
+		c := hoCase{Conns: rapid.IntRange(1, 3).Draw(rt, "conns"), TermMs: rapid.SampledFrom([]int{300, 600, 1200}).Draw(rt, "term"), AdminBusy: rapid.IntRange(0, 3).Draw(rt, "busy") == 0,
+			Blocked: rapid.IntRange(0, 2).Draw(rt, "blocked") == 0}
 		for i, n := 0, rapid.SampledFrom([]int{0, 0, 1, 1, 2}).Draw(rt, "lost"); i < n; i++ {
 			c.Lost = append(c.Lost, lostChild{KillAfterMs: rapid.SampledFrom([]int{0, 5, 20, 60, 150, 400}).Draw(rt, "killafter")})
 		}
